@@ -477,7 +477,17 @@ def name_variants(shape, rng):
     out.append(("struct", name, fields[:-1]))
   out.append(("struct", name, list(fields)))
   rng.shuffle(out)
-  return out[:3]
+  out = out[:3]
+  # the same field names and outer list lengths, ONE inner dimension of a multi-dimensional list field longer or shorter
+  for i, (fn, fsh) in enumerate(fields):
+    if isinstance(fsh, tuple) and fsh[0] == "list" and isinstance(fsh[2], tuple) and fsh[2][0] == "list":
+      e = fsh[2][1]
+      for e2 in ([e - 1] if e > 1 else []) + [e + 1]:
+        f4 = list(fields); f4[i] = (fn, ("list", fsh[1], ("list", e2, fsh[2][2])))
+        v = ("struct", name, f4)
+        if R.shape_nbits(v) < 1024: out.append(v)
+      break
+  return out
 
 
 def check_array_decl(sh, rng, case):
